@@ -179,13 +179,17 @@ func (p *prediction) updateRow(m *model, o *op, rc *rec, key string) {
 }
 
 // newRow: expectations for a row inserted from rc (struct: every field is given; map: its keys).
-func (p *prediction) newRow(m *model, o *op, rc *rec, key string) {
+func (p *prediction) newRow(m *model, o *op, rc *rec, key string, autoKey bool) {
 	si := selinfo(o)
 	re := &rowExp{key: key, isNew: true, cells: map[string]cellExp{}}
 	for _, f := range m.fields {
 		switch {
 		case f.pk:
-			re.cells[f.col] = cellExp{mode: mMust, want: key, why: "key of the new row"}
+			want := key // database-assigned key
+			if v, ok := rc.vals[f.idx]; ok && !isGoZero(f.k, v.lv) && !autoKey {
+				want = normL(v.lv)
+			}
+			re.cells[f.col] = cellExp{mode: mMust, want: want, why: "key of the new row"}
 			continue
 		case f.ignored:
 			re.cells[f.col] = keep("NULL", "ignored-field-written", "field "+f.name+" is ignored (`"+f.perm+"`)")
@@ -289,42 +293,49 @@ func predict(m *model, o *op, condKeys map[string]bool) *prediction {
 	p := newPrediction(m)
 	inCond := func(k string) bool { return condKeys == nil || condKeys[k] }
 	nextAuto := m.maxKey
-	rowKey := func(rc *rec) string {
-		mv, ok := rc.vals[m.pk.idx]
+	// rowKey: the key a new row gets (the given one, or the next rowid when no key is written)
+	rowKey := func(rc *rec) (string, bool) {
+		k, ok := m.recKey(rc)
 		si := selinfo(o)
 		written := ok
-		if written {
-			if a, _, _ := si.allowed(m.pk.idx); !a {
+		for _, f := range m.pks {
+			if a, _, _ := si.allowed(f.idx); !a {
 				written = false
 			}
 		}
-		if !written || isGoZero(m.pk.k, mv.lv) {
+		if !written || m.keyIsZero(k) {
 			nextAuto++
-			return strconv.FormatInt(nextAuto, 10)
+			return strconv.FormatInt(nextAuto, 10), true
 		}
-		return normL(mv.lv)
+		return normL(k), false
+	}
+	keyOf := func(rc *rec) string {
+		k, _ := m.recKey(rc)
+		return normL(k)
 	}
 	switch o.kind {
 	case "create", "create-slice", "create-batches", "create-map", "create-maps":
 		for _, rc := range o.recs {
-			p.newRow(m, o, rc, rowKey(rc))
+			k, auto := rowKey(rc)
+			p.newRow(m, o, rc, k, auto)
 		}
 	case "upsert-cols", "upsert-assign", "upsert-all", "upsert-nothing", "save-slice":
 		for _, rc := range o.recs {
-			k := normL(rc.vals[m.pk.idx].lv)
+			k := keyOf(rc)
 			if m.seedFor(k) != nil {
 				p.conflictRow(m, o, rc, k)
 				p.target = append(p.target, k)
 			} else {
-				p.newRow(m, o, rc, k)
+				p.newRow(m, o, rc, k, false)
 			}
 		}
 	case "save", "save-new", "save-cond":
 		rc := o.recs[0]
-		k := normL(rc.vals[m.pk.idx].lv)
+		k := keyOf(rc)
 		switch {
 		case m.seedFor(k) == nil:
-			p.newRow(m, o, rc, rowKey(rc))
+			nk, auto := rowKey(rc)
+			p.newRow(m, o, rc, nk, auto)
 		case inCond(k):
 			p.updateRow(m, o, rc, k)
 			p.target = append(p.target, k)
